@@ -202,6 +202,23 @@ Example C05_example_send_handle :
      EChunk 0 3 1; EQ 6; EChunk 0 4 6; ECb 0 0 0; EQ 0].
 Proof. vm_compute. reflexivity. Qed.
 
+(* Sizes are unbounded in the model (write_queue_size is a size_t; no sum below 2^64
+   wraps).  One system call accepts at most MAX_RW_COUNT bytes, so the `int` returned
+   by uv__try_write / uv_try_write loses nothing, whatever the buffers add up to. *)
+Theorem C05_os_accepts_fit_int :
+  forall o off n o', sys_write o off = (WN n, o') -> (Z.of_N n <= 2147483647)%Z.
+Proof. exact sys_write_fits_int. Qed.
+Print Assumptions C05_os_accepts_fit_int.
+
+Example C05_example_huge :
+  let s := exec (fun _ => []) (init false [AErr 11; AWrote 2147483648] 0%Z [] None false)
+                [OWrite [5]; OWrite [4294967296; 1]; OTry [4294967296]; ORun] in
+  trace s =
+    [EWrite 0 5; ERet 0 0; EQ 5; EWrite 1 4294967297; ERet 1 0; EQ 4294967302; ETry 2 4294967296;
+     ETryRet 2 UV_EAGAIN; EQ 4294967302; EChunk 0 0 5; EChunk 1 0 2147479552; ECb 0 0 2147487745;
+     EChunk 1 2147479552 2147479552; EQ 8193].
+Proof. vm_compute. reflexivity. Qed.
+
 (* The hypotheses are satisfiable / the statements are not vacuous: a run with a
    short write, EAGAIN, EINTR, a zero-length buffer, a queued request, a refused
    try_write and a shutdown. *)
